@@ -125,6 +125,16 @@ SITES["C16"] = [
          params="(P : Phi2 α) (rc z : Core α)", operands=[("P", "phi2"), ("rc", "coreM"), ("z", "coreM")], prio=["rc", "z"]),
 ]
 
+_BL = dict(file="torchtt/_aux_ops.py", func="bilinear_form_aux")
+SITES["C07"] = [
+    dict(_BL, name="bilA", target="result", occ=0, model="TT.bilA", params="(cj : α → α) (T : Nat → Nat → Nat → α) (x : Core α)", app="cj T x",
+         operands=[("T", "phi3"), ("x", "conjT")], prio=["x"]),
+    dict(_BL, name="bilB", target="result", occ=1, model="TT.bilB", params="(cj : α → α) (T : Nat → Nat → Nat → α) (x A : Core α)", app="cj T x A",
+         operands=[("(gen_bilA cj T x)", "arr4"), ("A", "coreM")], prio=["A"]),
+    dict(_BL, name="bilC", target="result", occ=2, model="TT.bilC", params="(cj : α → α) (T : Nat → Nat → Nat → α) (x A y : Core α)", app="cj T x A y",
+         operands=[("(gen_bilB cj T x A)", "arr4"), ("y", "coreT")], prio=["y"], dims={"n": "A.n"}),
+]
+
 
 class SiteError(Exception):
     pass
@@ -223,7 +233,7 @@ def generate(prop):
         defs.append("/-- %s:%d  `%s = …('%s', %s)` -/\ndef gen_%s %s :=\n  %s\n" % (site["file"], lineno, tname, subs, ", ".join(args), site["name"], site["params"], term))
         defs.append("theorem gen_%s_eq %s : gen_%s %s = %s %s := rfl\n" % (site["name"], site["params"], site["name"], app, site["model"], app))
         thms.append(("gen_%s_eq" % site["name"], site, subs, args, lineno))
-    src = ("import TTModel.Kernels\nimport TTModel.KernelsDiv\nimport TTModel.KernelsDmrg\nimport TTModel.Manifold\n/-! GENERATED by harness/einsum2lean.py from the current source of /repo — do not edit -/\n"
+    src = ("import TTModel.Kernels\nimport TTModel.KernelsDiv\nimport TTModel.KernelsDmrg\nimport TTModel.Manifold\nimport TTModel.Reduce\n/-! GENERATED by harness/einsum2lean.py from the current source of /repo — do not edit -/\n"
            "set_option linter.unusedSectionVars false\nnamespace TT.Gen\nopen TT TT.Kern\nvariable {α : Type} [Zero α] [One α] [Add α] [Mul α]\n\n" + "\n".join(defs) + "\nend TT.Gen\n")
     return src, thms, errs
 
